@@ -140,6 +140,10 @@ class C19(Prop):
                 meta = attrs_for(rng, 3)
                 if rng.random() < 0.3:
                     meta["nested"] = {"a": 1, "b": [1, "x"]}
+                if rng.random() < 0.35:
+                    # JSON-representable values that are falsy in Python
+                    for k in rng.sample(["zero", "fzero", "empty", "nolist", "flag"], rng.randint(1, 3)):
+                        meta[k] = {"zero": 0, "fzero": 0.0, "empty": "", "nolist": [], "flag": False}[k]
                 yield {"op": "json", "array": gen.clean(arr), "meta": meta}
             else:
                 fmt = rng.choice(["NETCDF4", "NETCDF4", "NETCDF3_CLASSIC"])
@@ -147,7 +151,7 @@ class C19(Prop):
                 steps = [{"how": "dataset"}]
                 # append more variables by the other entry points
                 for j in range(rng.randint(0, 2)):
-                    how = rng.choice(["dimarray_a", "dimarray_a+", "open_setitem"])
+                    how = rng.choice(["dimarray_a", "dimarray_a+", "open_setitem", "dataset_a", "dataset_a+"])
                     sub = [d for d in dd["dims"] if rng.random() < 0.6]
                     vk = rng.choice(["f", "i"])
                     steps.append({"how": how, "key": "w%d" % j, "dims": sub, "vkind": vk, "attrs_py": attrs_for(rng)})
@@ -193,6 +197,8 @@ class C19(Prop):
                         a.write_nc(path, st["key"], mode="a")
                     elif st["how"] == "dimarray_a+":
                         a.write_nc(path, st["key"], mode="a+")
+                    elif st["how"] in ("dataset_a", "dataset_a+"):
+                        Dataset({st["key"]: a}).write_nc(path, mode=st["how"][8:])
                     else:
                         f = da.open_nc(path, mode="a")
                         f[st["key"]] = a
